@@ -57,11 +57,16 @@ def _work(job):
 def run_units(units, use_cvc5=True, procs=None):
     jobs = [(q, rc, use_cvc5) for (q, rc) in units]
     procs = procs or min(16, max(1, len(jobs)))
-    ncpu = int(os.environ.get("PYVC_CPUS", "16"))
-    os.environ.setdefault("PYVC_OB_PROCS", str(max(1, min(8, ncpu // max(1, min(len(jobs), ncpu))))))
+    ncpu = int(os.environ.get("PYVC_CPUS", str(os.cpu_count() or 16)))
+    from pyvc import verify
+    # every solver call / symbolic execution holds one of `ncpu` slots (inherited through fork), so units may fan
+    # their obligations out widely without oversubscribing the machine
+    verify.SLOTS = mp.get_context("fork").Semaphore(ncpu)
+    os.environ.setdefault("PYVC_OB_PROCS", str(max(1, min(ncpu, 8))))
     if procs == 1 or len(jobs) == 1:
         _init()
         return [_work(j) for j in jobs]
+    procs = min(len(jobs), ncpu)
     with mp.get_context("fork").Pool(procs, initializer=_init) as pool:
         return pool.map(_work, jobs, chunksize=1)
 
